@@ -195,12 +195,14 @@ def plan(tier, seed):
     nchunk = 64 if tier == "quick" else 256
     jobs = [("bams", maxr, ch, nchunk, len(combos) // nchunk) for ch in range(nchunk)]
     jobs.append(("refcheck", seed, 100))
+    for ch in range(8):
+        jobs.append(("windows", ch, 8, 400))
     return jobs
 
 
 def run_job(job):
     env.quiet()
-    return {"bams": job_bams, "refcheck": job_refcheck}[job[0]](job)
+    return {"bams": job_bams, "refcheck": job_refcheck, "windows": job_windows}[job[0]](job)
 
 
 def job_bams(job):
@@ -403,4 +405,57 @@ def job_refcheck(job):
                     r.violation("ref-alignment-vs-snv-app|pos=%d|base=%s|exc" % (p, wrong), "unexpected %r" % (synth.root_cause(e),), payload)
             env.quiet()
     r.sample({"reference_mismatch_cases": r.evaluations})
+    return r
+
+
+def job_windows(job):
+    """Locus.set_sequence / set_variants: for EVERY window [s, e) of a region the locus holds exactly the SNVs of the SNV file with
+    s <= pos < e (incl. SNVs on the first / last base), with their alleles; non-SNV records are ignored; duplicate positions merge."""
+    from mchap.io import Locus
+
+    _, ch, nch, _ = job
+    r = Result()
+    payload = {"kind": "job", "job": job}
+    d = env.scratch_dir("c06w")
+    fa = synth.write_ref(str(d))
+    pos_alleles = {10: ("C",), 11: ("A", "G"), 15: ("C",), 20: ("A",), 21: ("C",), 29: ("G",), 30: ("T",)}
+    pos_alleles = {p: tuple(a for a in al if a != R[p]) or (("A",) if R[p] != "A" else ("C",)) for p, al in pos_alleles.items()}
+    lines = ["##fileformat=VCFv4.3", "##contig=<ID=chr1,length=%d>" % len(R), "##contig=<ID=chr2,length=60>", "#CHROM\tPOS\tID\tREF\tALT\tQUAL\tFILTER\tINFO"]
+    recs = [(p, R[p], ",".join(al)) for p, al in pos_alleles.items()]
+    recs.append((13, R[13:15], R[13]))                      # deletion: not an SNV
+    recs.append((17, R[17], R[17] + "TT"))                  # insertion: not an SNV
+    recs.append((24, R[24:26], "GG" if R[24:26] != "GG" else "CC"))  # MNP: not an SNV
+    extra_alt = [b for b in "ACGT" if b != R[15] and b not in pos_alleles[15]][0]
+    recs.append((15, R[15], extra_alt))                     # second record at an SNV position: alleles merge
+    for p, ref_, alt in sorted(recs, key=lambda t: t[0]):
+        lines.append("chr1\t%d\t.\t%s\t%s\t.\t.\t." % (p + 1, ref_, alt))
+    path = os.path.join(str(d), "w.vcf")
+    with open(path, "w") as f:
+        f.write("\n".join(lines) + "\n")
+    vcf = synth.bgzip_tabix(path)
+    merged = dict(pos_alleles)
+    merged[15] = pos_alleles[15] + (extra_alt,)
+    k = -1
+    for s_ in range(5, 34):
+        for e_ in range(s_ + 1, 36):
+            k += 1
+            if k % nch != ch:
+                continue
+            want = [(p, (R[p],) + merged[p]) for p in sorted(merged) if s_ <= p < e_]
+            r.evaluations += 1
+            if want:
+                r.nontrivial += 1
+            for order in ("seq-first", "variants-first"):
+                base = Locus(CONTIG, s_, e_, "w", None, None)
+                try:
+                    loc = base.set_sequence(fa).set_variants(vcf) if order == "seq-first" else base.set_variants(vcf).set_sequence(fa)
+                except Exception as e:  # noqa
+                    r.violation("window-exception|%s" % type(e).__name__, "%s: %s for window [%d,%d) (%s)" % (type(e).__name__, e, s_, e_, order), payload)
+                    continue
+                got = [(v.start, tuple(v.alleles)) for v in loc.variants]
+                if got != want or loc.sequence != R[s_:e_]:
+                    r.violation("window-variants|first-base=%s|last-base=%s" % (any(p == s_ for p, _ in want), any(p == e_ - 1 for p, _ in want)),
+                                "locus [%d,%d) holds SNVs %r, the SNV file has %r in that window (%s)" % (s_, e_, got, want, order), payload)
+            r.outcome((s_, e_, len(want)))
+    r.sample({"locus_windows": "all [s,e) with 5<=s<e<=35 on chr1", "snv_positions": sorted(merged)})
     return r
